@@ -28,8 +28,9 @@ type streamCase struct {
 	SEN    bool // input is SEN (only SEN front-ends compared)
 	SENTok bool // SEN input stays inside sen.md (tokenizer compared too)
 	Padded bool
-	Used   int // history of the parser objects (frontends.go: feUsed)
-	Reuse  bool // the parsers' Reuse option (frontends.go: feReuse)
+	Used   int           // history of the parser objects (frontends.go: feUsed)
+	Reuse  bool          // the parsers' Reuse option (frontends.go: feReuse)
+	Fault  *sim.Schedule // fault configuration: a delivery schedule whose reader fails (non-EOF) at an offset
 	feat   map[string]any
 }
 
@@ -44,12 +45,13 @@ func (c *streamCase) render() any {
 	for _, s := range c.Scheds {
 		ss = append(ss, s.String())
 	}
-	return map[string]any{"family": c.Family, "input": in, "mode": []string{"single", "callback", "channel"}[c.Mode], "schedules": ss, "sweep": c.Sweep, "parser_history": []string{"fresh", "parsed another document before", "previous streamed call failed mid-document", "previous call failed after a complete document"}[c.Used], "reuse_option": c.Reuse}
+	return map[string]any{"family": c.Family, "input": in, "mode": []string{"single", "callback", "channel"}[c.Mode], "schedules": ss, "sweep": c.Sweep, "parser_history": []string{"fresh", "parsed another document before", "previous streamed call failed mid-document", "previous call failed after a complete document"}[c.Used], "reuse_option": c.Reuse, "reader_fault": fmt.Sprint(c.Fault)}
 }
 
 var bom = []byte{0xEF, 0xBB, 0xBF}
 
 var maxIntBoundary = regexp.MustCompile(`922337203685477580[0-7]`)
+var maxIntBoundaryFrac = regexp.MustCompile(`922337203685477580[0-7][.eE]`)
 
 // hasMaxIntBoundaryLiteral: some number literal has the positive integer part
 // 9223372036854775800..9223372036854775807 (19 digits, not preceded by a digit or a minus sign and not
@@ -93,6 +95,7 @@ func (c *streamCase) features() map[string]any {
 	// a positive integer part 9223372036854775800..9223372036854775807 (pinned by the repo's own tests
 	// to parse as json.Number from a whole buffer and as int64 byte by byte)
 	f["maxint_boundary_literal"] = hasMaxIntBoundaryLiteral(c.Input)
+	f["maxint_boundary_with_fraction_or_exponent"] = f["maxint_boundary_literal"] == true && maxIntBoundaryFrac.Match(c.Input)
 	if c.SEN {
 		depth, inStr, esc := 0, byte(0), false
 		topComment, topPlus := false, false
@@ -144,6 +147,9 @@ func drawStreamCase(t *rapid.T, forC09 bool) *streamCase {
 	var fam int
 	if forC09 {
 		fam = sim.Weighted(t, "family", 0, 8, 0, 0)
+		if sim.Intn(t, 4, "usedparser") == 3 {
+			c.Used = 1 + sim.Intn(t, 3, "used")
+		}
 	} else {
 		fam = sim.Weighted(t, "family", 4, 4, 3, 4, 1)
 		if sim.Intn(t, 4, "usedparser") == 3 {
@@ -228,6 +234,11 @@ func drawStreamCase(t *rapid.T, forC09 bool) *streamCase {
 		c.Scheds = append(c.Scheds, sim.DrawSchedule(t, len(c.Input), interior))
 	}
 	c.Sweep = len(c.Input) >= 2 && len(c.Input) <= 64 && sim.Intn(t, 3, "sweep") == 2
+	if !forC09 && sim.Intn(t, 5, "readerfault") == 4 {
+		c.Fault = sim.DrawSchedule(t, len(c.Input), interior)
+		c.Fault.FailAt = sim.Intn(t, len(c.Input)+1, "failat")
+		c.Fault.FailSticky = sim.Bool(t, "failsticky")
+	}
 	return c
 }
 
@@ -355,6 +366,48 @@ func agree(cx *sim.Ctx, c *streamCase, oracle string, base, o *outcome, level in
 	}
 }
 
+// faulted judges a streamed run whose reader failed with a non-EOF error before the input was complete
+// (fault configuration, judged separately from the fault-free runs): the call must report an error - a reader
+// failure is never a successful parse of a shorter input -, must neither panic nor hang, and whatever it handed
+// over before the failure must be the beginning of what the fault-free run of the same front-end hands over
+// (wrong data is never excused by a fault; missing data is).
+func faulted(cx *sim.Ctx, c *streamCase, base, o *outcome) {
+	if !o.FaultHit {
+		return // the call stopped reading before the failing offset (an earlier syntax error)
+	}
+	sim.Fault("reader_error_mid_stream")
+	attrs := map[string]any{"family": c.Family, "mode": c.Mode, "a": o.Name}
+	for k, v := range c.features() {
+		attrs[k] = v
+	}
+	cls := func(what string) string { return fmt.Sprintf("C03/reader-fault/%s/%s", o.Name, what) }
+	if o.Hung || o.Panic != nil {
+		cx.Fail(cls(o.class()), fmt.Sprintf("%s with %s: %s", o.Name, c.Fault, o), attrs)
+		return
+	}
+	if o.Err == nil {
+		cx.Fail(cls("error-swallowed"), fmt.Sprintf("%s with %s: the reader failed but the call reports success: %s", o.Name, c.Fault, o), attrs)
+		return
+	}
+	if base.Hung || base.Panic != nil || c.Mode == modeSingle {
+		return
+	}
+	if len(o.Docs) > len(base.Docs) {
+		cx.Fail(cls("extra-document"), fmt.Sprintf("%s with %s handed over %d documents, the fault-free run %d", o.Name, c.Fault, len(o.Docs), len(base.Docs)), attrs)
+		return
+	}
+	for i := range o.Docs {
+		if ea, eb := ref.Exact(o.Docs[i]), ref.Exact(base.Docs[i]); ea != eb {
+			what := "wrong-document"
+			if ok, _ := ref.SameValue(o.Docs[i], base.Docs[i]); ok {
+				what = "document-type" // the chunking findings seen through the fault run's own chunking
+			}
+			cx.Fail(cls(what), fmt.Sprintf("%s with %s: document %d handed over before the failure is %s, fault-free %s", o.Name, c.Fault, i, clip(ea), clip(eb)), attrs)
+			return
+		}
+	}
+}
+
 func clip(s string) string {
 	if len(s) > 400 {
 		return s[:200] + "…" + s[len(s)-150:]
@@ -454,7 +507,7 @@ func cutProbes(cx *sim.Ctx, c *streamCase, toks []ref.Span, shift int, bounds []
 }
 
 func propC03(cx *sim.Ctx) {
-	sim.Declare([]string{"cut_inside_string", "cut_inside_number", "cut_inside_literal", "cut_inside_whitespace", "cut_inside_unicode_escape", "cut_between_escape_pair", "cut_right_after_backslash", "cut_after_open_quote", "cut_after_minus", "cut_after_dot", "cut_after_e", "cut_after_exp_sign", "cut_right_after_newline", "cut_between_cr_lf", "cut_inside_bom", "cut_at_4096_multiple", "cut_at_4096_in_string", "cut_at_4096_in_number", "strict_json_vs_sen", "both_error_delivered_prefix_differs"}, []string{})
+	sim.Declare([]string{"cut_inside_string", "cut_inside_number", "cut_inside_literal", "cut_inside_whitespace", "cut_inside_unicode_escape", "cut_between_escape_pair", "cut_right_after_backslash", "cut_after_open_quote", "cut_after_minus", "cut_after_dot", "cut_after_e", "cut_after_exp_sign", "cut_right_after_newline", "cut_between_cr_lf", "cut_inside_bom", "cut_at_4096_multiple", "cut_at_4096_in_string", "cut_at_4096_in_number", "strict_json_vs_sen", "both_error_delivered_prefix_differs"}, []string{"reader_error_mid_stream"})
 	c := drawStreamCase(cx.T, false)
 	cx.Render(c.render)
 	cx.Key(c.Input, c.Mode, c.Used, c.Reuse)
@@ -496,6 +549,12 @@ func propC03(cx *sim.Ctx) {
 			agree(cx, c, "sen-chunking", b0, note(senParseReader(in, s, c.Mode)), levelExact)
 			if tp != nil {
 				agree(cx, c, "sen-chunking", tp, note(senTokLoad(in, s, c.Mode)), levelExact)
+			}
+		}
+		if c.Fault != nil {
+			faulted(cx, c, b0, note(senParseReader(in, c.Fault, c.Mode)))
+			if tp != nil {
+				faulted(cx, c, tp, note(senTokLoad(in, c.Fault, c.Mode)))
 			}
 		}
 		if inside || c.Padded {
@@ -545,6 +604,17 @@ func propC03(cx *sim.Ctx) {
 		}
 		if vp != nil {
 			agree(cx, c, "chunking", vp, note(ojValidateReader(in, s)), levelExact)
+		}
+	}
+	if c.Fault != nil {
+		faulted(cx, c, b0, note(ojParseReader(in, c.Fault, c.Mode)))
+		faulted(cx, c, tp, note(ojTokLoad(in, c.Fault, c.Mode)))
+		faulted(cx, c, gp, note(genParseReader(in, c.Fault, c.Mode)))
+		if sp != nil {
+			faulted(cx, c, sp, note(senParseReader(in, c.Fault, c.Mode)))
+		}
+		if vp != nil {
+			faulted(cx, c, vp, note(ojValidateReader(in, c.Fault)))
 		}
 	}
 	ntok := 0
